@@ -2,8 +2,10 @@ import os, itertools
 from vlib import core, e1
 
 BS = [('0', '0'), ('SKIP', 'F_SKIP'), ('DIR', 'F_DIR'), ('SYNC', 'F_SYNC'), ('SYNC+USL', 'F_SYNC|F_USL'),
-      ('SYNC+SKIP', 'F_SYNC|F_SKIP'), ('SYNC+DIR', 'F_SYNC|F_DIR')]
-CB = [('0', '0'), ('SKIP', 'F_SKIP'), ('DIR', 'F_DIR'), ('OBO', 'F_OBO'), ('OBO+SKIP', 'F_OBO|F_SKIP'), ('OBO+DIR', 'F_OBO|F_DIR')]
+      ('SYNC+SKIP', 'F_SYNC|F_SKIP'), ('SYNC+DIR', 'F_SYNC|F_DIR'),
+      ('SKIP+DIR', 'F_SKIP|F_DIR'), ('SYNC+SKIP+DIR', 'F_SYNC|F_SKIP|F_DIR')]      # both self flags: skip wins, the caller is not targeted
+CB = [('0', '0'), ('SKIP', 'F_SKIP'), ('DIR', 'F_DIR'), ('OBO', 'F_OBO'), ('OBO+SKIP', 'F_OBO|F_SKIP'), ('OBO+DIR', 'F_OBO|F_DIR'),
+      ('SKIP+DIR', 'F_SKIP|F_DIR'), ('OBO+SKIP+DIR', 'F_OBO|F_SKIP|F_DIR')]
 CALLER = {0: 'ext', 1: 'w0', 2: 'wlast', 3: 'otherpool'}
 NOTRUN = {0: 'allrun', 1: 't0-notstarted', 2: 'tlast-detached', 3: 't0-was-the-caller', 4: 'all-in-stop-hook', 5: 'caller-queue-full', 6: 'caller-detached-itself', 7: 'tlast-busy-detached-from-outside'}
 
